@@ -1,7 +1,8 @@
 import Mltwist.Lemmas.EmulatorMem
 /-
 Emulator (C03, C04), part 6: the memory phase of evaluation (`evalMemoryFully`).  On an expression
-without register loads it never panics (when every load it performs lies in the domain of C14); its
+without register loads it never panics: it succeeds when every load it performs lies in the domain of C14, and is
+stopped by `checkAccess` (REPAIR F45) at the first load that does not (`evalMem_total`); on success its
 result is the expression with every memory load replaced, bottom-up, by the constant the FINAL byte maps
 hold for it; the state evolves by memory fills only; the report notes exactly the loads performed.
 -/
@@ -155,23 +156,52 @@ structure MemOut (p : Provider) (e : Expr) (c c' : Ctx) : Prop where
   memsIn : MemsIn (absOf c'.st) e
   rep : c'.rep = noteLoads c.rep (memReads (absOf c'.st) e)
 
-theorem evalMem_spec (p : Provider) : ∀ (e : Expr) (c : Ctx), Inv c.st → regLoads e = [] → e.wf = true →
-    EvalMemDom p e c → ∃ c', evalMem p e c = .ok (substMem (absOf c'.st) e, c') ∧ MemOut p e c c'
-  | .const bs, c, hi, _, _, _ =>
-    ⟨c, rfl, ⟨⟨[], by simp, Fill.nil _, fun _ h => (nomatch h)⟩, rfl, hi, trivial, by simp [memReads, noteLoads]⟩⟩
-  | .regLoad k w, c, _, hr, _, _ => by simp [regLoads] at hr
-  | .memLoad key a w, c, hi, hr, hw, hd => by
+/-- what an evaluation stopped by `checkAccess` (REPAIR F45) guarantees: the context at that moment results from the
+context at the begin by provider fills only (each for state unknown at its moment), the invariant holds, and the
+access `[a, a+w)` that stopped it does not fit the address space -/
+structure AccStop (p : Provider) (c c' : Ctx) (a w : Nat) : Prop where
+  log : ∃ l, c'.log = c.log ++ l ∧ Fill p c.st l c'.st
+  inv : Inv c'.st
+  bad : 2 ^ 64 ≤ a + w
+
+theorem AccStop.here {p : Provider} {c : Ctx} {a w : Nat} (hi : Inv c.st) (h : 2 ^ 64 ≤ a + w) :
+    AccStop p c c a w := ⟨⟨[], by simp, Fill.nil _⟩, hi, h⟩
+
+theorem AccStop.after {p : Provider} {c c1 c' : Ctx} {a w : Nat} {l1 : List Req} (hl : c1.log = c.log ++ l1)
+    (hf : Fill p c.st l1 c1.st) (h : AccStop p c1 c' a w) : AccStop p c c' a w := by
+  obtain ⟨l2, h1, h2⟩ := h.log
+  exact ⟨⟨l1 ++ l2, by rw [h1, hl, List.append_assoc], hf.append h2⟩, h.inv, h.bad⟩
+
+/-- the memory phase on ANY well-formed expression without register loads never panics: it succeeds (with
+everything `MemOut` says), or `checkAccess` stops it at a load whose range does not fit the address space — which
+is exactly what the domain condition `EvalMemDom` excludes -/
+theorem evalMem_total (p : Provider) : ∀ (e : Expr) (c : Ctx), Inv c.st → regLoads e = [] → e.wf = true →
+    (∃ c', evalMem p e c = .ok (substMem (absOf c'.st) e, c') ∧ MemOut p e c c') ∨
+    (∃ c' a w, evalMem p e c = .error (.access c' a w) ∧ AccStop p c c' a w ∧ ¬ EvalMemDom p e c)
+  | .const bs, c, hi, _, _ =>
+    Or.inl ⟨c, rfl, ⟨⟨[], by simp, Fill.nil _, fun _ h => (nomatch h)⟩, rfl, hi, trivial, by simp [memReads, noteLoads]⟩⟩
+  | .regLoad k w, c, _, hr, _ => by simp [regLoads] at hr
+  | .memLoad key a w, c, hi, hr, hw => by
     simp only [Expr.wf, Bool.and_eq_true, decide_eq_true_eq] at hw
-    obtain ⟨c1, h1, o1⟩ := evalMem_spec p a c hi hr hw.2 hd.1
+    rcases evalMem_total p a c hi hr hw.2 with ⟨c1, h1, o1⟩ | ⟨c1, a0, w0, h1, s1, hnd⟩
+    rotate_left
+    · exact Or.inr ⟨c1, a0, w0, by simp only [evalMem, h1], s1, fun hd => hnd hd.1⟩
     -- the address
     have hsh := substMem_shape (absOf c1.st) a hr hw.2
     obtain ⟨ab, _, hcf, _, hval⟩ := foldConst_shape hsh
     have haddr : (Const.constUint 8 ab).1 = loadAddr (absOf c1.st) a := by
       rw [Lemmas.State.constUint8, hval ρ0]; rfl
-    have hdom := hd.2 _ c1 h1 ab hcf
-    rw [haddr] at hdom
-    obtain ⟨v, c2, h2, o2⟩ := memValue_spec p c1 key (loadAddr (absOf c1.st) a) w o1.inv hdom
+    have hlt : loadAddr (absOf c1.st) a < 2 ^ 64 := Nat.mod_lt _ (by decide)
     obtain ⟨l1, hl1, hf1, hq1⟩ := o1.log
+    rcases memValue_total p c1 key (loadAddr (absOf c1.st) a) w o1.inv hlt hw.1 with
+      ⟨hdom, v, c2, h2, o2⟩ | ⟨hbad, h2⟩
+    rotate_left
+    · refine Or.inr ⟨c1, loadAddr (absOf c1.st) a, w, by simp only [evalMem, h1, hcf, haddr, h2],
+        AccStop.after hl1 hf1 (AccStop.here o1.inv hbad), fun hd => ?_⟩
+      have := hd.2 _ c1 h1 ab hcf
+      rw [haddr] at this
+      have := this.2.2
+      omega
     obtain ⟨l2, hl2, hf2, hq2⟩ := o2.log
     have he : AExt (absOf c1.st) (absOf c2.st) := aext_of_fill hf2 o1.inv
     obtain ⟨e1, e2, e3⟩ := substMem_ext he a o1.memsIn
@@ -181,7 +211,7 @@ theorem evalMem_spec (p : Provider) : ∀ (e : Expr) (c : Ctx), Inv c.st → reg
       have := o2.value ρ0
       show v = natToLE w (loadVal ρ0 (c2.st.mems.abs key) _ w)
       rw [← this, ← o2.len, Lemmas.Const.natToLE_leToNat]
-    refine ⟨{ c2 with rep := c2.rep.memRead key (loadAddr (absOf c1.st) a) v }, ?_, ?_⟩
+    refine Or.inl ⟨{ c2 with rep := c2.rep.memRead key (loadAddr (absOf c1.st) a) v }, ?_, ?_⟩
     · simp only [evalMem, h1, hcf, haddr, h2, substMem]
       rw [e1, hv]
       rfl
@@ -200,16 +230,21 @@ theorem evalMem_spec (p : Provider) : ∀ (e : Expr) (c : Ctx), Inv c.st → reg
         rw [o2.rep, o1.rep]
         simp only [memReads, noteLoads_append, e3, haddr2, ← hv]
         rfl
-  | .binary op a b w, c, hi, hr, hw, hd => by
+  | .binary op a b w, c, hi, hr, hw => by
     simp only [regLoads, List.append_eq_nil_iff] at hr
     simp only [Expr.wf, Bool.and_eq_true, decide_eq_true_eq] at hw
-    obtain ⟨c1, h1, o1⟩ := evalMem_spec p a c hi hr.1 hw.1.2 hd.1
-    obtain ⟨c2, h2, o2⟩ := evalMem_spec p b c1 o1.inv hr.2 hw.2 (hd.2 _ c1 h1)
+    rcases evalMem_total p a c hi hr.1 hw.1.2 with ⟨c1, h1, o1⟩ | ⟨c1, a0, w0, h1, s1, hnd⟩
+    rotate_left
+    · exact Or.inr ⟨c1, a0, w0, by simp only [evalMem, h1], s1, fun hd => hnd hd.1⟩
     obtain ⟨l1, hl1, hf1, hq1⟩ := o1.log
+    rcases evalMem_total p b c1 o1.inv hr.2 hw.2 with ⟨c2, h2, o2⟩ | ⟨c2, a0, w0, h2, s2, hnd⟩
+    rotate_left
+    · exact Or.inr ⟨c2, a0, w0, by simp only [evalMem, h1, h2], AccStop.after hl1 hf1 s2,
+        fun hd => hnd (hd.2 _ c1 h1)⟩
     obtain ⟨l2, hl2, hf2, hq2⟩ := o2.log
     have he : AExt (absOf c1.st) (absOf c2.st) := aext_of_fill hf2 o1.inv
     obtain ⟨e1, e2, e3⟩ := substMem_ext he a o1.memsIn
-    refine ⟨c2, ?_, ?_⟩
+    refine Or.inl ⟨c2, ?_, ?_⟩
     · simp only [evalMem, h1, h2, substMem, e1]
     · refine ⟨⟨l1 ++ l2, by rw [hl2, hl1, List.append_assoc], hf1.append hf2, ?_⟩, o2.regs.trans o1.regs,
         o2.inv, ⟨e2, o2.memsIn⟩, ?_⟩
@@ -219,19 +254,30 @@ theorem evalMem_spec (p : Provider) : ∀ (e : Expr) (c : Ctx), Inv c.st → reg
         · exact hq2 r h
       · rw [o2.rep, o1.rep]
         simp only [memReads, noteLoads_append, e3]
-  | .less a b t f w, c, hi, hr, hw, hd => by
+  | .less a b t f w, c, hi, hr, hw => by
     simp only [regLoads, List.append_eq_nil_iff] at hr
     simp only [Expr.wf, Bool.and_eq_true, decide_eq_true_eq] at hw
-    obtain ⟨c1, h1, o1⟩ := evalMem_spec p a c hi hr.1.1.1 hw.1.1.1.2 hd.1
-    have hd1 := hd.2 _ c1 h1
-    obtain ⟨c2, h2, o2⟩ := evalMem_spec p b c1 o1.inv hr.1.1.2 hw.1.1.2 hd1.1
-    have hd2 := hd1.2 _ c2 h2
-    obtain ⟨c3, h3, o3⟩ := evalMem_spec p t c2 o2.inv hr.1.2 hw.1.2 hd2.1
-    have hd3 := hd2.2 _ c3 h3
-    obtain ⟨c4, h4, o4⟩ := evalMem_spec p f c3 o3.inv hr.2 hw.2 hd3
+    rcases evalMem_total p a c hi hr.1.1.1 hw.1.1.1.2 with ⟨c1, h1, o1⟩ | ⟨c1, a0, w0, h1, s1, hnd⟩
+    rotate_left
+    · exact Or.inr ⟨c1, a0, w0, by simp only [evalMem, h1], s1, fun hd => hnd hd.1⟩
     obtain ⟨l1, hl1, hf1, hq1⟩ := o1.log
+    rcases evalMem_total p b c1 o1.inv hr.1.1.2 hw.1.1.2 with ⟨c2, h2, o2⟩ | ⟨c2, a0, w0, h2, s2, hnd⟩
+    rotate_left
+    · exact Or.inr ⟨c2, a0, w0, by simp only [evalMem, h1, h2], AccStop.after hl1 hf1 s2,
+        fun hd => hnd (hd.2 _ c1 h1).1⟩
     obtain ⟨l2, hl2, hf2, hq2⟩ := o2.log
+    have hl12 : c2.log = c.log ++ (l1 ++ l2) := by rw [hl2, hl1, List.append_assoc]
+    rcases evalMem_total p t c2 o2.inv hr.1.2 hw.1.2 with ⟨c3, h3, o3⟩ | ⟨c3, a0, w0, h3, s3, hnd⟩
+    rotate_left
+    · exact Or.inr ⟨c3, a0, w0, by simp only [evalMem, h1, h2, h3], AccStop.after hl12 (hf1.append hf2) s3,
+        fun hd => hnd ((hd.2 _ c1 h1).2 _ c2 h2).1⟩
     obtain ⟨l3, hl3, hf3, hq3⟩ := o3.log
+    have hl123 : c3.log = c.log ++ (l1 ++ l2 ++ l3) := by rw [hl3, hl12, List.append_assoc]
+    rcases evalMem_total p f c3 o3.inv hr.2 hw.2 with ⟨c4, h4, o4⟩ | ⟨c4, a0, w0, h4, s4, hnd⟩
+    rotate_left
+    · exact Or.inr ⟨c4, a0, w0, by simp only [evalMem, h1, h2, h3, h4],
+        AccStop.after hl123 ((hf1.append hf2).append hf3) s4,
+        fun hd => hnd (((hd.2 _ c1 h1).2 _ c2 h2).2 _ c3 h3)⟩
     obtain ⟨l4, hl4, hf4, hq4⟩ := o4.log
     have e12 : AExt (absOf c1.st) (absOf c2.st) := aext_of_fill hf2 o1.inv
     have e23 : AExt (absOf c2.st) (absOf c3.st) := aext_of_fill hf3 o2.inv
@@ -239,7 +285,7 @@ theorem evalMem_spec (p : Provider) : ∀ (e : Expr) (c : Ctx), Inv c.st → reg
     obtain ⟨a1, a2, a3⟩ := substMem_ext ((e12.trans e23).trans e34) a o1.memsIn
     obtain ⟨b1, b2, b3⟩ := substMem_ext (e23.trans e34) b o2.memsIn
     obtain ⟨t1, t2, t3⟩ := substMem_ext e34 t o3.memsIn
-    refine ⟨c4, ?_, ?_⟩
+    refine Or.inl ⟨c4, ?_, ?_⟩
     · simp only [evalMem, h1, h2, h3, h4, substMem, a1, b1, t1]
     · refine ⟨⟨l1 ++ l2 ++ l3 ++ l4, by rw [hl4, hl3, hl2, hl1]; simp [List.append_assoc],
           ((hf1.append hf2).append hf3).append hf4, ?_⟩,
@@ -253,5 +299,12 @@ theorem evalMem_spec (p : Provider) : ∀ (e : Expr) (c : Ctx), Inv c.st → reg
         · exact hq4 r h
       · rw [o4.rep, o3.rep, o2.rep, o1.rep]
         simp only [memReads, noteLoads_append, a3, b3, t3]
+
+/-- … in particular, when every load lies in the domain of C14, it succeeds -/
+theorem evalMem_spec (p : Provider) (e : Expr) (c : Ctx) (hi : Inv c.st) (hr : regLoads e = []) (hw : e.wf = true)
+    (hd : EvalMemDom p e c) : ∃ c', evalMem p e c = .ok (substMem (absOf c'.st) e, c') ∧ MemOut p e c c' := by
+  rcases evalMem_total p e c hi hr hw with h | ⟨_, _, _, _, _, hnd⟩
+  · exact h
+  · exact absurd hd hnd
 
 end Mltwist.Lemmas.Emulator
